@@ -4,6 +4,7 @@ CONSTANTS
   BinOps = {"+", "-", "*", "/", "//", "%", "**", "<<", ">>", "|", "^", "&"}
   CmpOps = {"==", "!=", "<", "<=", ">", ">=", "in", "not in", "is", "is not"}
   Depth2 = TRUE
+  Shapes = {"full", "empty"}
 INVARIANT NumClosed
 CONSTRAINT Export
 CHECK_DEADLOCK FALSE
